@@ -2,15 +2,26 @@
 (* Behaviour generation for TestStateReplay: StateCommit plus a history variable.  Each step is one
    atomic update or an EndBlock; EndBlock steps carry the abstract state the block must commit to.
    The replayer applies the updates through Blockchain.Finalise on both state backends, with the
-   model's block boundaries and with other splits of the same update sequence. *)
-EXTENDS StateCommit, Json
+   model's block boundaries and with other splits of the same update sequence.
+
+   Value-domain dimension (FeltDomain.tla): every behaviour carries a magnitude class for each storage
+   value index, class hash, compiled class hash and nonce value; the replayer concretises them as felts
+   of that class, so that extreme felts reach every operand position of the contract leaf
+   H(H(H(class_hash, storage_root), nonce), 0), of the storage tries' leaves and bottom binary nodes
+   (adjacent slots) and of the class leaf.
+   Read-fault dimension: a ReadFault step marks the block under construction: the replayer applies that
+   block once per read position with that read failing (on a copy of the node), see StateCommit.tla. *)
+EXTENDS StateCommit, Json, FeltDomain
 
 CONSTANT MBTLen
-VARIABLE hist
-mbtvars == <<vars, hist>>
-MBTInit == Init /\ hist = <<>>
+VARIABLES hist, mag
+mbtvars == <<vars, hist, mag>>
 
 R(S) == IF S = {} THEN {} ELSE {RandomElement(S)}
+\* (an operator with a parameter: TLC evaluates a constant-level definition only once)
+RandomMag(x) == [val |-> RandomElement(MagAssignments(1..MaxVal)), class |-> RandomElement(MagAssignments(Classes)),
+              comp |-> RandomElement(MagAssignments(Compiled)), nonce |-> RandomElement(MagAssignments(1..MaxNonce))]
+MBTInit == Init /\ hist = <<>> /\ mag = RandomMag(0)
 LiveSet == {c \in Contracts : Live(c)}
 SimNext ==
   \/ /\ DiffSize(diff) < MaxDiff
@@ -26,12 +37,16 @@ SimNext ==
         \/ \E k \in R(Sierra), x \in R(Compiled) : AddDeclare(k, x)
      /\ UNCHANGED <<deployed, nonce, store, declared, ctrie, cltrie, blocks>>
   \/ Restart
+  \/ \E f \in R(FaultPos) : ReadFault(f)
   \/ EndBlock
   \/ (EndBlock /\ diff # EmptyDiff)
   \/ (EndBlock /\ diff # EmptyDiff /\ blocks >= 0)
 
 Proj == [deployed |-> deployed', nonce |-> nonce', store |-> store', declared |-> declared']
-Step == SimNext /\ hist' = Append(hist, IF act'.name = "EndBlock" THEN [a |-> act', st |-> Proj] ELSE [a |-> act'])
+\* the first step of a behaviour carries the behaviour's magnitude assignment
+Rec == LET base == IF act'.name = "EndBlock" THEN [a |-> act', st |-> Proj] ELSE [a |-> act']
+       IN IF hist = <<>> THEN base @@ [mag |-> mag] ELSE base
+Step == SimNext /\ mag' = mag /\ hist' = Append(hist, Rec)
 
 Emit ==
   /\ PrintT(ToJson(hist))
@@ -39,9 +54,10 @@ Emit ==
   /\ store' = [a \in Addrs |-> [s \in Slots |-> 0]] /\ declared' = [k \in Sierra |-> None]
   /\ ctrie' = [a \in Addrs |-> NoLeaf] /\ cltrie' = [k \in Sierra |-> NoLeaf]
   /\ diff' = EmptyDiff /\ blocks' = 0 /\ act' = [name |-> "Init"] /\ hist' = <<>>
+  /\ mag' = RandomMag(hist)
 
 \* a behaviour always ends with a block boundary so that its last updates are committed
 MBTNext == IF Len(hist) >= MBTLen /\ diff = EmptyDiff THEN Emit
-           ELSE IF Len(hist) >= MBTLen THEN EndBlock /\ hist' = Append(hist, [a |-> act', st |-> Proj])
+           ELSE IF Len(hist) >= MBTLen THEN EndBlock /\ hist' = Append(hist, [a |-> act', st |-> Proj]) /\ mag' = mag
            ELSE Step
 =============================================================================
